@@ -1176,42 +1176,50 @@ theorem wkp_anywhere_loads_exclusions (ps cs : List Ent) (zs : List Name) (x6 : 
     List.any_eq_true.mpr ⟨p, hp, hw⟩
   simp only [hany, if_true]
 
-/-- `compileConfig` stores a zone written in any letter case, with surrounding
-blanks and with or without the final dot as the lower-case rendered name. -/
-theorem compiled_zone_of_text (t : Name) (z : List (List UInt8)) (hz : z ≠ [])
-    (ht : trimSpace (lower t) = lower (present z) ∨
-      (trimSpace (lower t) ≠ [] ∧ hasSuffix (trimSpace (lower t)) ['.'] = false ∧
-        trimSpace (lower t) ++ ['.'] = lower (present z))) :
-    compileZone t = some (lower (present z)) := by
-  obtain ⟨x, hx⟩ := presentLabels_ends_with_dot z hz
-  have hpz : present z = presentLabels z := by simp [present, hz]
-  have hdot : lower (present z) = lower x ++ ['.'] := by rw [hpz, hx, lower_append]; simp [lower]
-  unfold compileZone
-  simp only
-  rcases ht with ht | ⟨hne, hns, ht⟩
-  · rw [ht, hdot]
-    simp [hasSuffix_append]
-  · have hemp : (trimSpace (lower t)).isEmpty = false := by
-      cases hh : trimSpace (lower t) with
-      | nil => exact absurd hh hne
-      | cons _ _ => rfl
-    simp only [hemp, Bool.false_eq_true, if_false, hns, ht]
+/-- the text `compileConfig` hands to the library for a configured zone:
+lower-cased, blanks trimmed, final dot added. -/
+def zoneText (t : Name) : Name :=
+  if hasSuffix (trimSpace (lower t)) ['.'] then trimSpace (lower t) else trimSpace (lower t) ++ ['.']
 
-/-- end to end: a zone written in any letter case, with or without the final dot
-and with surrounding blanks, excludes its whole subtree for every wire name. -/
-theorem configured_zone_any_case_excludes_subtree (ps cs : List Ent) (zs : List Name) (xa x6 : Option (List Ent))
-    (t : Name) (ht_mem : t ∈ zs) (pre z : List (List UInt8)) (hz : z ≠ [])
-    (ht : trimSpace (lower t) = lower (present z) ∨
-      (trimSpace (lower t) ≠ [] ∧ hasSuffix (trimSpace (lower t)) ['.'] = false ∧
-        trimSpace (lower t) ++ ['.'] = lower (present z))) :
+/-- `compileConfig` stores, for a zone text the library reads as the name `ls`
+— in ANY legal presentation form: `\\DDD`, `\\X`, upper case, blanks, no final
+dot — the library's own lower-case rendering of `ls`. -/
+theorem compiled_zone_of_text (t : Name) (ls : List (List UInt8)) (hne : trimSpace (lower t) ≠ [])
+    (hp : packName (zoneText t) = some ls) : compileZone t = some (lower (present ls)) := by
+  unfold compileZone canonicalZoneText
+  have hemp : (trimSpace (lower t)).isEmpty = false := by
+    cases hh : trimSpace (lower t) with
+    | nil => exact absurd hh hne
+    | cons _ _ => rfl
+  unfold zoneText at hp
+  simp only [hemp, Bool.false_eq_true, if_false, hp]
+
+/-- **A configured zone, in any presentation form, excludes its whole subtree
+for every wire name.** If the library reads the configured text as the name
+`ls`, every query name whose labels end with those labels (in any letter case)
+is excluded — end to end through `compileConfig` and `zoneExcluded`. -/
+theorem configured_zone_any_form_excludes_subtree (ps cs : List Ent) (zs : List Name) (xa x6 : Option (List Ent))
+    (t : Name) (ht_mem : t ∈ zs) (ls : List (List UInt8)) (hne : trimSpace (lower t) ≠ [])
+    (hp : packName (zoneText t) = some ls)
+    (pre z : List (List UInt8)) (hz : z ≠ []) (hcase : lower (present z) = lower (present ls)) :
     (compile ps cs zs xa x6).zoneExcluded (canonical (present (pre ++ z))) = true := by
   apply excluded_zone_covers_subtree _ pre z hz
   unfold compile
   simp only
-  exact List.mem_filterMap.mpr ⟨t, ht_mem, compiled_zone_of_text t z hz ht⟩
+  rw [hcase]
+  exact List.mem_filterMap.mpr ⟨t, ht_mem, compiled_zone_of_text t ls hne hp⟩
 
+-- "\069xample.org" IS example.org: WWW.Example.ORG is excluded (before fix 9b7ec79 it was not)
+example : packName (zoneText "\\069xample.org".toList) = some [[69, 120, 97, 109, 112, 108, 101], [111, 114, 103]] := by decide
+example : (compile [] [] ["\\069xample.org".toList] none none).zoneExcluded
+    (canonical (present [[87, 87, 87], [69, 120, 97, 109, 112, 108, 101], [79, 82, 71]])) = true := by decide
 example : (compile [] [] [" Example.ORG".toList] none none).zoneExcluded
     (canonical (present [[87, 87, 87], [69, 120, 97, 109, 112, 108, 101], [79, 82, 71]])) = true := by decide
+-- "a\046b.example.org" and "a\.b.example.org" are the same zone; an unescaped space is read and re-rendered escaped
+example : compileZone "a\\046b.example.org".toList = compileZone "a\\.b.example.org".toList := by decide
+example : compileZone "sp ace.test".toList = some "sp\\ ace.test.".toList := by decide
+-- texts the library cannot read as a name are kept as they are
+example : compileZone "a..b.test".toList = some "a..b.test.".toList := by decide
 
 example : (compile [.v6 [0x20, 1, 0xd, 0xb8, 0, 0x64, 0, 0, 0, 0, 0, 0, 0, 0, 0, 0] 96, .v6 wkpIP 96] [] [] none none).exA
     = defaultExcludeAv4 := by decide
